@@ -420,6 +420,9 @@ func (ex *Exec) RunEntry(name string) *EntryResult {
 			case Aborted:
 				if n.abortK == "stop" {
 					res.Infeasible++
+					if os.Getenv("VERIF_DUMPPATHS") != "" {
+						fmt.Fprintf(os.Stderr, "---- path ended (stop): %s\n", truncate(n.abortM, 600))
+					}
 					break
 				}
 				res.Aborted++
